@@ -3,10 +3,14 @@
   Model: GrogModel/Exec.lean (`tryHit` minimal branch, `loadOutputs`, `loadDepList`).
   Proved here: the per-target decision does not depend on the mode (no lost blobs), what minimal mode
   materialises is exactly what mode `all` restores from the same result, a loaded dependency is marked loaded with
-  the stored output hash. The whole-history lock-step statement is kept as `same_verdict_and_execs` (a `def`);
-  the correspondence check compares the two modes on the real CLI in lock step.
+  the stored output hash; and (Lemmas/BuildMinimal.lean: lock-step simulation `Rel` of the two modes)
+  `deps_present_at_exec_holds` — when a command starts in minimal mode every declared output of every direct dependency is
+  materialised and current — and `same_verdict_and_execs_holds` — over every well-formed history without lost blobs, run in
+  lock step in both modes over separate caches, each build has the same verdict, the same executed commands in the same
+  order, the same per-target verdicts and leaves the same cache.
 -/
 import GrogModel.Lemmas.BuildBasic
+import GrogModel.Lemmas.BuildMinimal
 set_option linter.unusedSectionVars false
 set_option linter.unusedVariables false
 set_option linter.unusedSimpArgs false
@@ -79,20 +83,125 @@ theorem materialised_equal (d : Target) (r : Result κ) (s s' : BState κ) (h : 
         exact Or.inr ⟨hfs, hv, { ds with loaded := true, oh := some r.oh }, by simp, rfl, rfl⟩
       · cases h
 
-/-- `deps_present_at_exec`, stated in full (not proved for whole builds): whenever a command starts, every declared
-    output of every direct dependency is in the workspace with the value the dependency's output hash encodes. -/
+/-- **deps_present_at_exec**, stated in full. The `all` run (`sa`) and the `minimal` run (`sm`) have processed the same
+    prefix `pre` of a well-formed order (relation `Rel`: same cache, log and statuses, same workspace off the output
+    paths, every finished target of the minimal run loaded or restorable); the next target `t` has all its dependencies
+    finished successfully and misses the cache. Then `LoadDependencyOutputs` succeeds with the fuel the build gives it,
+    re-runs nothing, and when the command of `t` starts every declared output of every direct dependency is
+    materialised (`loaded`) and current: it has, path by path, the value the `all` run has in its workspace. -/
 def deps_present_at_exec (P : Params κ) : Prop :=
-  ∀ (cfg : Cfg) (defs : Defs) (fuel : Nat) (t : Target) (s s1 : BState κ),
-    loadDepList P cfg defs fuel t.ldeps s = (s1, true) →
-    ∀ d ∈ t.deps, ∀ ds, s1.st d = some ds → ds.ok = true → ds.loaded = true
+  ∀ (cfg : Cfg) (outP : Path → Prop) (defs : Defs) (order pre : List Lbl) (l : Lbl) (suf : List Lbl) (t : Target) (sa sm : BState κ),
+    BuildOK outP defs order → order = pre ++ l :: suf → defs l = some t → Rel P outP defs sa sm pre →
+    depsOk sm.st t.deps = true →
+    ∃ sm1, loadDepList P (withMode cfg true) defs (fuelFor order) t.ldeps sm = (sm1, true) ∧
+      sm1.log = sm.log ∧ sm1.cache = sm.cache ∧
+      ∀ d ∈ t.deps, ∃ ds dt, sm1.st d = some ds ∧ ds.ok = true ∧ ds.loaded = true ∧ defs d = some dt ∧
+        ∀ p ∈ outPaths dt, sm1.fs p = sa.fs p
 
-/-- the lock-step statement of the property over whole histories (kept as a definition; the correspondence check
-    runs both modes of the real CLI in lock step on every generated history) -/
+theorem deps_present_at_exec_holds (P : Params κ) (hro : P.fx.rerunOnce = true) (hlf : P.fx.loadFault = true) :
+    deps_present_at_exec P := by
+  intro cfg outP defs order pre l suf t sa sm hB ho ht hR hok
+  have hlo : l ∈ order := by rw [ho]; simp
+  have hpo : ∀ d ∈ pre, d ∈ order := fun d hd => by rw [ho]; simp [hd]
+  obtain ⟨hld, _⟩ := hB.wfm l hlo t ht
+  have hdeps : ∀ d ∈ t.deps, d ∈ pre := hB.wf.topo pre l suf ho t ht
+  obtain ⟨sm1, hload, hR1, _, _, hloaded, _⟩ :=
+    loadDepList_restores hro hlf (cfg := withMode cfg true) hB.wf hB.disc hpo t.ldeps (fuelFor order) sm
+      (fuel_ok hB.wf hB.wfm l hlo t ht) (fun d hd => hdeps d (by rw [← hld]; exact hd))
+      (fun d hd => depsOk_mem hok d (by rw [← hld]; exact hd)) hR
+  refine ⟨sm1, hload, by rw [← hR1.log, hR.log], by rw [← hR1.cache, hR.cache], ?_⟩
+  intro d hd
+  obtain ⟨m, h1, h2, h3⟩ := hloaded d (by rw [hld]; exact hd)
+  obtain ⟨dt, hdt⟩ := hB.wf.defined d (hpo d (hdeps d hd))
+  exact ⟨m, dt, h1, h2, h3, hdt, fun p hp => hR1.loaded d (hdeps d hd) m h1 h2 h3 dt hdt p hp⟩
+
+/-- "current" also in the sense of the dependency's output hash: under the invariant of the `all` run (C01's `Inv`), what
+    minimal mode has materialised for a finished dependency is exactly what its output hash — the one that went into the
+    dependant's key — describes. -/
+theorem deps_current_at_exec {P : Params κ} {outP : Path → Prop} {defs : Defs} {order pre : List Lbl} {sa sm1 : BState κ}
+    {c : Spec.CState} (hI : Inv P defs order sa c pre) (hR1 : Rel P outP defs sa sm1 pre)
+    (d : Lbl) (hd : d ∈ pre) (m : TStat κ) (hm : sm1.st d = some m) (hok : m.ok = true) (hl : m.loaded = true) :
+    ∃ dt oh, defs d = some dt ∧ m.oh = some oh ∧ OhMatches dt oh sm1.fs := by
+  have hst := hR1.st d
+  rw [hm] at hst
+  cases hsa : sa.st d with
+  | none => rw [hsa] at hst; exact absurd hst (by simp [StAgree])
+  | some x =>
+    rw [hsa] at hst
+    obtain ⟨h1, _, h3⟩ := hst
+    obtain ⟨dt, oh, hdt, hoh, hmt⟩ := hI.dep d hd x hsa (by rw [h1]; exact hok)
+    exact ⟨dt, oh, hdt, by rw [← h3]; exact hoh,
+      OhMatches_congr (fun p hp => (hR1.loaded d hd m hm hok hl dt hdt p hp).symm) hmt⟩
+
+/-- **same_verdict_and_execs** — the lock-step statement of the property over whole histories.
+    `w` is the common starting world (any definitions, workspace and cache whose CAS holds every blob its results name);
+    `h` is any history of edits (of definitions, sources, files at output paths, external files), taints and builds with
+    any flags, run once with every build in mode `all` and once with every build in mode `minimal`, over separate
+    caches; then one more build `cfg`, `order` in both modes. Every build is well formed (`BuildOK`: `WF`, dependency
+    lists without duplicates, declared outputs inside `outP`, inputs and check files outside). **Excluded:** `dropBlob`
+    steps (a lost blob makes mode `all` re-execute a target that mode `minimal` still answers from its result record; the
+    correspondence check compares such histories modulo irretrievable targets) and non-well-formed builds. -/
 def same_verdict_and_execs (P : Params κ) : Prop :=
-  ∀ (w : World κ) (h : List Step) (cfg : Cfg) (order : List Lbl),
-    let wa := runHistory P w (h.map fun st => match st with | .build c o => .build (withMode c false) o | x => x)
-    let wm := runHistory P w (h.map fun st => match st with | .build c o => .build (withMode c true) o | x => x)
-    succeeded (build P (withMode cfg false) wa order) order = succeeded (build P (withMode cfg true) wm order) order
+  ∀ (outP : Path → Prop) (w : World κ) (h : List Step) (cfg : Cfg) (order : List Lbl),
+    CasOK w.cache → HistOK outP w.defs h →
+    BuildOK outP (runHistory P w (forceMode false h)).defs order →
+    let wa := runHistory P w (forceMode false h)
+    let wm := runHistory P w (forceMode true h)
+    let sa := build P (withMode cfg false) wa order
+    let sm := build P (withMode cfg true) wm order
+    succeeded sa order = succeeded sm order ∧ executed sa = executed sm ∧ sa.cache = sm.cache ∧
+      (∀ l, (∃ ts, sa.st l = some ts ∧ ts.ok = true) ↔ (∃ ts, sm.st l = some ts ∧ ts.ok = true))
+
+theorem same_verdict_and_execs_holds (P : Params κ) (hG : Good P) (hfx : P.fx.minValidate = true) (hro : P.fx.rerunOnce = true)
+    (hlf : P.fx.loadFault = true) : same_verdict_and_execs P := by
+  intro outP w h cfg order hcas hH hB
+  have hW0 : WRel outP w w := ⟨rfl, rfl, fun _ _ => rfl, hcas⟩
+  obtain ⟨hW, _⟩ := history_wrel hG hfx hro hlf h w w hW0 hH
+  obtain ⟨hR0, _⟩ := build_rel hG hfx hro hlf cfg hW hB
+  have hR : Rel P outP (runHistory P w (forceMode false h)).defs (build P (withMode cfg false) (runHistory P w (forceMode false h)) order)
+      (build P (withMode cfg true) (runHistory P w (forceMode true h)) order) order := hR0
+  refine ⟨succeeded_agree hR.st order, by simp only [executed]; rw [hR.log], hR.cache, ?_⟩
+  intro l
+  have := hR.st l
+  constructor
+  · rintro ⟨ts, h1, h2⟩
+    rw [h1] at this
+    cases hm : (build P (withMode cfg true) (runHistory P w (forceMode true h)) order).st l with
+    | none => rw [hm] at this; exact absurd this (by simp [StAgree])
+    | some y => rw [hm] at this; exact ⟨y, rfl, by rw [← this.1]; exact h2⟩
+  · rintro ⟨ts, h1, h2⟩
+    rw [h1] at this
+    cases ha : (build P (withMode cfg false) (runHistory P w (forceMode false h)) order).st l with
+    | none => rw [ha] at this; exact absurd this (by simp [StAgree])
+    | some x => rw [ha] at this; exact ⟨x, rfl, by rw [this.1]; exact h2⟩
+
+/-- the hypotheses are satisfiable by a non-trivial history: an edit that introduces a target with an output, a taint,
+    two builds of that target -/
+def exDefs : Defs := fun l => if l = [1] then some (mkT [1] [⟨false, [9]⟩] [] false) else none
+
+theorem exBuildOK : BuildOK (fun p => p = [9]) exDefs [[1]] := by
+  have hd : ∀ l t, exDefs l = some t → l = [1] ∧ t = mkT [1] [⟨false, [9]⟩] [] false := by
+    intro l t h
+    simp only [exDefs] at h
+    split at h
+    · rename_i e; simp only [Option.some.injEq] at h; exact ⟨e, h.symm⟩
+    · cases h
+  refine ⟨⟨by simp, ?_, ?_, ?_, ?_, ?_, ?_, ?_⟩, ?_, ⟨?_, ?_, ?_⟩⟩
+  · intro l hl; simp at hl; subst hl; exact ⟨mkT [1] [⟨false, [9]⟩] [] false, by simp [exDefs]⟩
+  · intro l t h; obtain ⟨rfl, rfl⟩ := hd l t h; rfl
+  · intro l _ t h; obtain ⟨rfl, rfl⟩ := hd l t h; simp [mkT, outPaths]
+  · intro pre l suf _ t h d hdm; obtain ⟨rfl, rfl⟩ := hd l t h; simp [mkT] at hdm
+  · intro l₁ h₁ l₂ h₂ hne; simp at h₁ h₂; subst h₁; subst h₂; exact absurd rfl hne
+  · intro l _ t h l' _ t' h' p hp; obtain ⟨rfl, rfl⟩ := hd l t h; simp [mkT] at hp
+  · intro l _ t h l' _ t' h' c hc; obtain ⟨rfl, rfl⟩ := hd l t h; simp [mkT] at hc
+  · intro l _ t h; obtain ⟨rfl, rfl⟩ := hd l t h; simp [mkT]
+  · intro l _ t h p hp; obtain ⟨rfl, rfl⟩ := hd l t h; simpa [mkT, outPaths] using hp
+  · intro l _ t h p hp; obtain ⟨rfl, rfl⟩ := hd l t h; simp [mkT] at hp
+  · intro l _ t h c hc; obtain ⟨rfl, rfl⟩ := hd l t h; simp [mkT] at hc
+
+example : CasOK (emptyCache : Cache Nat) ∧
+    HistOK (fun p => p = [9]) (fun _ => none) [.edit exDefs [([5], some [7])], .build ⟨true, false⟩ [[1]], .taint [[1]], .build ⟨true, true⟩ [[1]]] :=
+  ⟨fun k r h => by simp [emptyCache] at h, exBuildOK, exBuildOK, trivial⟩
 
 /-- **nocache_rerun_witness** (regression, F-nocache-rerun): with the unrepaired loop a no-cache dependency that
     already ran in this build (its outputs are loaded) is executed again when a dependant loads its dependencies;
@@ -111,10 +220,38 @@ theorem nocache_rerun_witness :
   constructor
   · intro hf
     simp [loadDepList, d, s, st0, c, mkT, loadOutputs, hf]
-    have hx' : (P.run ⟨[], 0, [], []⟩ (viewAt (fun l => if l = [100] then some d else none) d s.fs)).exit0 = true := hx
+    have hx' : (P.run ⟨[], 0, [], [], false⟩ (viewAt (fun l => if l = [100] then some d else none) d s.fs)).exit0 = true := hx
     simp [execTarget, d, mkT, s, c, checksPass, collect, viewAt] at hx' ⊢
     simp [hx']
   · intro hf
     simp [loadDepList, d, s, st0, c, mkT, loadOutputs, hf]
+
+/-- **load_fault_witness** (regression; fault while dependency outputs are loaded): `t` needs `d1` and `d2`; the
+    stored result of `d1` cannot be read. The unrepaired loop re-runs `d1` and returns: `d2` is still not materialised
+    when `t`'s command starts. The repaired loop carries on and loads `d2`. -/
+theorem load_fault_witness :
+    ∃ (defs : Defs) (s : BState Nat), (∃ ds, s.st [50] = some ds ∧ ds.ok = true ∧ ds.loaded = false) ∧ s.cache.res 1 = none ∧
+      ∀ (P : Params Nat) (cfg : Cfg), (P.run ⟨[], 0, [], [], false⟩ ⟨[], []⟩).exit0 = true →
+        (P.fx.loadFault = false → ∃ ds, (loadDepList P cfg defs 5 [[49], [50]] s).1.st [50] = some ds ∧ ds.loaded = false) ∧
+        (P.fx.loadFault = true → (loadDepList P cfg defs 5 [[49], [50]] s).2 = true ∧
+            ∃ ds, (loadDepList P cfg defs 5 [[49], [50]] s).1.st [50] = some ds ∧ ds.loaded = true) := by
+  let d1 : Target := mkT [49] [] [] false
+  let d2 : Target := mkT [50] [] [] false
+  let c : Cache Nat := { res := fun k => if k = 2 then some ⟨.self 2, []⟩ else none, cas := fun _ => false, taint := fun _ => false }
+  let st0 : Lbl → Option (TStat Nat) := fun l =>
+    if l = [49] then some ⟨true, some 1, some (.self 1), false⟩ else if l = [50] then some ⟨true, some 2, some (.self 2), false⟩ else none
+  let s : BState Nat := { fs := fun _ => none, cache := c, st := st0, log := [] }
+  refine ⟨fun l => if l = [49] then some d1 else if l = [50] then some d2 else none, s,
+    ⟨⟨true, some 2, some (.self 2), false⟩, by simp [s, st0], rfl, rfl⟩, by simp [s, c], ?_⟩
+  intro P cfg hx
+  have hx' : (P.run ⟨[], 0, [], [], false⟩ (viewAt (fun l => if l = [49] then some d1 else if l = [50] then some d2 else none) d1 s.fs)).exit0 = true := by
+    simpa [viewAt, d1, mkT] using hx
+  constructor
+  · intro hf
+    simp [loadDepList, d1, d2, s, st0, c, mkT, hf, execTarget, checksPass, collect, viewAt] at hx' ⊢
+    simp [hx', upd]
+  · intro hf
+    simp [loadDepList, d1, d2, s, st0, c, mkT, hf, execTarget, checksPass, collect, viewAt, loadOutputs, restore, validate, writeOuts] at hx' ⊢
+    simp [hx', upd]
 
 end Grog.C15
